@@ -518,6 +518,7 @@ class Interp:
         ast.FloorDiv: ('floordiv', operator.floordiv), ast.BitAnd: ('and', operator.and_),
         ast.BitOr: ('or', operator.or_), ast.BitXor: ('xor', operator.xor),
         ast.MatMult: ('matmul', operator.matmul),
+        ast.LShift: ('lshift', operator.lshift), ast.RShift: ('rshift', operator.rshift),
     }
 
     def st_AugAssign(self, st, env, mi):
